@@ -23,6 +23,10 @@ def gen_case(rng, i, thorough):
     params = [x / s * tot for x in raw]
     if rng.random() < 0.25:  # dyadic coefficients (exact arithmetic)
         params = [round(p * 8) / 8 for p in params]
+    if order >= 2 and rng.random() < 0.2:  # exactly-zero coefficients at some lags
+        for j in range(order):
+            if rng.random() < 0.4:
+                params[j] = 0.0
     maxlen = 400 if thorough else 60
     n = rng.choice([0, 1, 2, 3, rng.randint(0, maxlen)])
     scale = rng.choice([1.0, 1e-3, 1e3, 1e6])
@@ -40,7 +44,9 @@ def gen_case(rng, i, thorough):
                     series[j] = float("nan")
     mean = rng.choice([0.0, rng.gauss(0, 3) * scale, -2.5 * scale])
     ini_default = rng.random() < 0.3
-    ini = mean if ini_default else rng.gauss(0, 3) * scale
+    # explicit initial values include exactly 0 / -0 (falsy in Python) and the mean itself
+    ini = mean if ini_default else rng.choice([rng.gauss(0, 3) * scale, rng.gauss(0, 3) * scale,
+                                                0.0, -0.0, mean])
     mean_default = rng.random() < 0.2
     bad = rng.random()
     if bad < 0.03 and order > 0:
@@ -158,7 +164,14 @@ def oracle(case, mean, ini, out):
                 fails.append(("C17/residual/missing-input-nonzero",
                               f"residual[{t}]={out[t]!r} for a missing input"))
                 break
-        if not nanpos:
+        # sim(residual(y)) re-runs the recursion on rounded residuals: a perturbation is
+        # amplified by at most (sum|phi|)^n; the numerical test is only meaningful while that
+        # factor is moderate (the exact law is the theorem C17_sim_of_residual; the kernels
+        # are compared bit-exactly with the model in any case)
+        sabs = sum(abs(q) for q in params)
+        amp = max(1.0, sabs) ** len(series)
+        if not nanpos and amp <= 1e4:
+            tol = tol * amp
             try:
                 back = armodels.armodel_sim(p, np.array(out), sim_mean=mean, sim_ini=ini)
                 if not np.allclose(back, series, rtol=0, atol=tol * (1 + order) * 10):
